@@ -275,9 +275,9 @@ def run_check(pid, tier, seed, replay):
                 # native fuzzing needs the package directory (testdata/fuzz) and one target
                 cdir = os.path.join(rundir, "fuzzcache-%d" % si)
                 os.makedirs(cdir, exist_ok=True)
-                cmd = ["go", "test", "-tags", "verif", "-vet=off", "-run", "^$", "-fuzz", "^%s$" % st["fuzz"],
-                       "-fuzztime", "%ds" % st["fuzztime_t"], "-test.fuzzcachedir", cdir,
-                       "-parallel", str(NCPU), "./" + st["pkg"]]
+                # (the package has to come before the flags that only the test binary knows)
+                cmd = ["go", "test", "-tags", "verif", "-vet=off", "./" + st["pkg"], "-run", "^$", "-fuzz", "^%s$" % st["fuzz"],
+                       "-fuzztime", "%ds" % st["fuzztime_t"], "-parallel", str(NCPU), "-test.fuzzcachedir", cdir]
                 wd = ROOT
                 timeout = st["fuzztime_t"] + 600
             logf = os.path.join(rundir, name + ".log")
@@ -312,7 +312,12 @@ def run_check(pid, tier, seed, replay):
                 p.wait()
             f.close()
             out = open(glog, errors="replace").read()
-            stages_run.append(dict(stage=gname, rc=p.returncode, timed_out=to))
+            entry = dict(stage=gname, rc=p.returncode, timed_out=to)
+            if st["kind"] == "fuzz":
+                ex = re.findall(r"execs: (\d+)", out)
+                entry["fuzz_target"] = st["fuzz"]
+                entry["native_fuzz_execs"] = int(ex[-1]) if ex else 0
+            stages_run.append(entry)
             keep = None
             if p.returncode != 0 or to:
                 keep = os.path.join(REPLAYS, "%s-%s-seed%d.log" % (pid, gname, seed))
@@ -359,6 +364,9 @@ def finish(pid, tier, seed, res, evmerge, evdir, rundir, t0, stages_run, cfg, re
                    excluded_known_finding_cases=int(m.get("excluded_known_finding_cases", 0)),
                    stages=stages_run, processes=int(m.get("fragments", 0)))
         cov.update(m.get("extra") or {})
+        fz = sum(e.get("native_fuzz_execs", 0) for e in stages_run)
+        if fz:
+            cov["native_fuzz_execs"] = fz  # coverage-guided executions of the same oracle (not counted in evaluations)
         ev = dict(property_id=pid, tier=tier, seed=seed, level="exploration", coverage=cov,
                   assumptions=cfg["assumptions"], wall_s=round(wall, 2), violations=len(res.violations),
                   undecided=res.undecided)
